@@ -398,10 +398,10 @@ impl Ctx {
         });
         let path = self.out_dir.join("result.json");
         std::fs::write(&path, serde_json::to_string_pretty(&doc).unwrap()).expect("write result");
-        if inconclusive.is_some() {
-            3
-        } else if !sigs.is_empty() {
+        if !sigs.is_empty() {
             1
+        } else if inconclusive.is_some() {
+            3
         } else {
             0
         }
